@@ -42,8 +42,17 @@ SPEC = dict(
 META = dict(
     technique="Lean 4 theorems about the scope chain, heap and call-frame functions the executable evaluator model calls + differential "
               "correspondence of the whole model with Runtime.Eval on exhaustive and random programs with probes and scope dumps",
-    level_text="(filled in below)",
-    level_note="(filled in below)",
+    level_text=("Proof (about the functions the evaluator model executes): lookup_nearest (a read resolves to the first scope of the parent "
+                "chain that defines the name, state unchanged), assign_nearest_or_local (+ touches exactly one scope, heap untouched), let_local "
+                "(defines in the current scope whatever the outer scopes hold), inner_not_visible_outside (a definition in a scope that is not on "
+                "the chain changes no resolution and no value read), call frame = new scope index / chain of a linked frame = frame :: chain of "
+                "the DECLARATION scope (partial: whole frame construction cross-checked on every final state by the driver), "
+                "args_missing_default_extra_ignored, prims_by_value_containers_by_ref + read_after_write for one map cell with number and "
+                "string keys (the key rule repaired by 5e0a7a5), list cells, and read_after_write_paths for any nesting on acyclic tree values."),
+    level_note=("Tested only (differential, no theorem): len/add/del/concat against Go slice semantics, `new` (template and super "
+                "properties), `this` in methods, `init` once with arguments and the super inits. Number-key theorems assume == is reflexive on "
+                "the float of the index (not NaN; Lean's Float is opaque). Keys containing '.' are re-split by the code and by the model alike. "
+                "Programs whose result shows an error object / non-integral float text are outside the model (counted as not compared)."),
 )
 
 
